@@ -54,12 +54,12 @@ import (
 
 // ---- scenario monitor (shared with idle.go) --------------------------------------------
 
-const (
-	scenWatchdog = 5 * time.Second
+var (
+	scenWatchdog = hx.ScaledTimeout(5 * time.Second)
 	// A leaked lock stays held forever; a lock that is merely being used by a
 	// call that is just finishing is released within microseconds. Polling for
 	// a while keeps the monitor sound and robust on a loaded machine.
-	scenLockGrace = 2 * time.Second
+	scenLockGrace = hx.ScaledTimeout(2 * time.Second)
 )
 
 type scenMon struct {
